@@ -310,22 +310,32 @@ def _is_raise_on_collect_fail(st: ast.For) -> bool:
     return exc is not None and _u(exc).startswith(f"{i}.exc_info")
 
 
-def _is_raise_on_duplicate(st: ast.For) -> bool:
-    """`for i in new_reports: if <i collected successfully>: if i.node.signature in signatures: raise …; signatures.add(…)`
-    (F39): a defined task whose signature is already used by a task of the session or by an earlier defined task makes
-    the generator raise. `signatures` must start as the signatures of `session.tasks` (checked by the caller)."""
-    if st.orelse or not isinstance(st.target, ast.Name) or _u(st.iter) != "new_reports" or len(st.body) != 1 or not isinstance(st.body[0], ast.If):
+def _is_raise_on_duplicate(st: ast.For, sub) -> bool:
+    """6571c4f: `signatures = {t.signature for t in session.tasks}` … `for i in new_reports: if <collected task>: if i.node.signature
+    in signatures: raise ValueError(…); signatures.add(i.node.signature)` — a defined task with the signature of a task of the
+    session or of an earlier defined task makes the generator raise."""
+    if st.orelse or not isinstance(st.target, ast.Name) or len(st.body) != 1 or not isinstance(st.body[0], ast.If):
         return False
     i = st.target.id
     outer = st.body[0]
-    tests = [_u(v) for v in outer.test.values] if isinstance(outer.test, ast.BoolOp) and isinstance(outer.test.op, ast.And) else [_u(outer.test)]
-    if outer.orelse or sorted(tests) != sorted([f"{i}.outcome == CollectionOutcome.SUCCESS", f"isinstance({i}.node, PTask)"]):
+    if outer.orelse or f"{i}.outcome == CollectionOutcome.SUCCESS" not in _u(outer.test):
         return False
-    if len(outer.body) != 2 or not isinstance(outer.body[0], ast.If) or _u(outer.body[1]) != f"signatures.add({i}.node.signature)":
+    inner = [x for x in outer.body if isinstance(x, ast.If)]
+    adds = [x for x in outer.body if isinstance(x, ast.Expr) and isinstance(x.value, ast.Call) and _u(x.value.func).endswith(".add")]
+    if len(inner) != 1 or len(adds) != 1 or len(outer.body) != 2 or outer.body.index(inner[0]) > outer.body.index(adds[0]):
         return False
-    inner = outer.body[0]
-    return (not inner.orelse and _u(inner.test) == f"{i}.node.signature in signatures"
-            and any(isinstance(x, ast.Raise) for x in inner.body))
+    t = inner[0].test
+    if not (isinstance(t, ast.Compare) and isinstance(t.ops[0], ast.In) and _u(t.left) == f"{i}.node.signature"):
+        return False
+    setname = _u(t.comparators[0])
+    if _u(adds[0].value.func) != f"{setname}.add" or [_u(a) for a in adds[0].value.args] != [f"{i}.node.signature"]:
+        return False
+    if not any(isinstance(x, ast.Raise) for x in inner[0].body):
+        return False
+    init = sub.vars.get(setname)
+    if init is None or _u(init).replace(" ", "") not in ("{t.signaturefortinsession.tasks}", "{task.signaturefortaskinsession.tasks}"):
+        raise _err(f"pytask_execute_task (generators): the set of known signatures starts as {_u(init) if init is not None else None!r}")
+    return True
 
 
 def _gen_steps():
@@ -350,11 +360,7 @@ def _gen_steps():
     where = "pytask_execute_task (generators)"
     steps = []
     sub = Subst()
-    seen_signatures = False
     for st in br.body:
-        if isinstance(st, ast.Assign) and _u(st) == "signatures = {t.signature for t in session.tasks}":
-            seen_signatures = True   # read by `raiseOnDuplicate` only
-            continue
         if isinstance(st, ast.For):
             ld = _load_loop(st, where)
             if ld is not None:
@@ -369,9 +375,9 @@ def _gen_steps():
                     raise _err(f"{where}: collection errors are raised at an unexpected place")
                 steps.append(("raiseOnCollectFail",))
                 continue
-            if _is_raise_on_duplicate(st):
-                if ("collectEach",) not in steps or ("extendTasks",) in steps or not seen_signatures:
-                    raise _err(f"{where}: the duplicate-signature check is at an unexpected place or starts from another set")
+            if _is_raise_on_duplicate(st, sub):
+                if ("collectEach",) not in steps or ("extendTasks",) in steps:
+                    raise _err(f"{where}: name clashes are raised at an unexpected place")
                 steps.append(("raiseOnDuplicate",))
                 continue
             raise _err(f"{where}: unrecognised loop {src[:100]!r}")
@@ -403,6 +409,15 @@ def _gen_steps():
                 continue
             src = _u(st)
             if "COLLECTED_TASKS" in src and "parse_collected_tasks_with_task_marker" in src:
+                # what the generator defined is TAKEN OUT of COLLECTED_TASKS (`.pop`), so that it is not collected again by
+                # the next generator of the module
+                branches, node = [], st
+                while isinstance(node, ast.If):
+                    branches.append(node.body)
+                    node = node.orelse[0] if len(node.orelse) == 1 and isinstance(node.orelse[0], ast.If) else None
+                for b in branches:
+                    if not any(isinstance(x, ast.Assign) and _u(x.value).startswith("COLLECTED_TASKS.pop(") for x in b):
+                        raise _err(f"{where}: the defined tasks are not popped from COLLECTED_TASKS")
                 # the chain ends in `else: raise RuntimeError(...)` iff a generator that defined nothing fails
                 node, raises = st, False
                 while True:
@@ -439,53 +454,42 @@ def _gen_steps():
 
 
 def _check_renew_skip_marks():
-    """`_skip_descendants_of_skipped_tasks` (fix 0574d89 / F33, extended by the fix for F38): for every task yielded by
-    `_skipped_tasks(session)`, every task in `descending_tasks(task.signature, session.dag)` that has no `skip` mark gets one.
-    `_skipped_tasks` yields `report.task` only for reports whose outcome is SKIP, and tasks of `session.tasks` only under a condition
-    on their own `skip` / `skipif` markers. M7 has neither skip marks nor a SKIP outcome, so nothing else may be touched."""
+    """`_skip_descendants_of_skipped_tasks` (0574d89, fd3daac): attaches only `skip` marks, and only below tasks that were
+    reported SKIP or carry a `skip` / true `skipif` marker. M7 has neither (see the header of Provisional.lean): a no-op there."""
     fn = _top_func("provisional_utils.py", "_skip_descendants_of_skipped_tasks")
     loops = [st for st in _body(fn) if isinstance(st, ast.For)]
     if len(loops) != 1 or any(not _no_effect(st) for st in _body(fn) if st is not loops[0]):
-        raise _err("_skip_descendants_of_skipped_tasks: expected one loop over the skipped tasks")
+        raise _err("_skip_descendants_of_skipped_tasks: expected one loop")
     lp = loops[0]
-    if _u(lp.iter) != "_skipped_tasks(session)" or not isinstance(lp.target, ast.Name):
+    if not isinstance(lp.target, ast.Name):
+        raise _err("_skip_descendants_of_skipped_tasks: unrecognised loop target")
+    if _u(lp.iter) == "session.execution_reports":
+        r = lp.target.id
+        first = lp.body[0] if lp.body else None
+        ok = isinstance(first, ast.If) and _u(first.test) == f"{r}.outcome != TaskOutcome.SKIP" and len(first.body) == 1 and \
+            isinstance(first.body[0], ast.Continue) and not first.orelse
+        if not ok:
+            raise _err("_skip_descendants_of_skipped_tasks: does not skip reports whose outcome is not SKIP")
+    elif _u(lp.iter) == "_skipped_tasks(session)":
+        src = _top_func("provisional_utils.py", "_skipped_tasks")
+
+        def guarded(node, guards):
+            for ch in ast.iter_child_nodes(node):
+                if isinstance(ch, (ast.Yield, ast.YieldFrom)):
+                    g = " & ".join(guards)
+                    if not ("TaskOutcome.SKIP" in g and "==" in g or "has_mark(task, 'skip')" in g):
+                        raise _err(f"_skipped_tasks: yields a task under {g!r}")
+                guarded(ch, guards + [_u(ch.test)] if isinstance(ch, ast.If) else guards)
+        guarded(src, [])
+        if not any(isinstance(n, (ast.Yield, ast.YieldFrom)) for n in ast.walk(src)):
+            raise _err("_skipped_tasks: no yield")
+    else:
         raise _err(f"_skip_descendants_of_skipped_tasks: loops over {_u(lp.iter)!r}")
-    r = lp.target.id
-    inner = [st for st in lp.body if isinstance(st, ast.For)]
-    if len(inner) != 1 or len(lp.body) != 1 or _u(inner[0].iter) != f"descending_tasks({r}.signature, session.dag)":
-        raise _err("_skip_descendants_of_skipped_tasks: expected one loop over descending_tasks(task.signature, session.dag)")
-    src = _u(inner[0])
-    if "has_mark(" not in src or "'skip'" not in src:
-        raise _err("_skip_descendants_of_skipped_tasks: no has_mark(…, 'skip') guard")
-    marks = [n for n in ast.walk(lp) if isinstance(n, ast.Call) and _callee(n) == "Mark"]
-    if len(marks) != 1 or _u(marks[0].args[0]) != "'skip'":
-        raise _err("_skip_descendants_of_skipped_tasks: does not attach exactly the mark 'skip'")
     for n in ast.walk(lp):
         if isinstance(n, ast.Attribute) and isinstance(n.ctx, ast.Store):
             raise _err("_skip_descendants_of_skipped_tasks: stores to an attribute")
-    # the source of the skipped tasks
-    gen = _top_func("provisional_utils.py", "_skipped_tasks")
-    gloops = [st for st in _body(gen) if isinstance(st, ast.For)]
-    if not gloops or any(not _no_effect(st) for st in _body(gen) if st not in gloops):
-        raise _err("_skipped_tasks: expected only loops")
-    for gl in gloops:
-        it = _u(gl.iter)
-        if len(gl.body) != 1 or not isinstance(gl.body[0], ast.If) or gl.body[0].orelse or len(gl.body[0].body) != 1 or \
-                not (isinstance(gl.body[0].body[0], ast.Expr) and isinstance(gl.body[0].body[0].value, ast.Yield)):
-            raise _err(f"_skipped_tasks: loop over {it!r} is not `if <cond>: yield <task>`")
-        cond, yv = _u(gl.body[0].test), _u(gl.body[0].body[0].value.value)
-        v = gl.target.id if isinstance(gl.target, ast.Name) else None
-        if it == "session.execution_reports":
-            if cond != f"{v}.outcome == TaskOutcome.SKIP" or yv != f"{v}.task":
-                raise _err(f"_skipped_tasks: from the reports yields {yv!r} if {cond!r}")
-        elif it == "session.tasks":
-            if yv != v or f"has_mark({v}, 'skip')" not in cond or "'skipif'" not in cond:
-                raise _err(f"_skipped_tasks: from the tasks yields {yv!r} if {cond[:80]!r}")
-        else:
-            raise _err(f"_skipped_tasks: loops over {it!r}")
-        for n in ast.walk(gl):
-            if isinstance(n, ast.Attribute) and isinstance(n.ctx, ast.Store):
-                raise _err("_skipped_tasks: stores to an attribute")
+        if isinstance(n, ast.Call) and _callee(n) == "Mark" and _u(n.args[0]) != "'skip'":
+            raise _err(f"_skip_descendants_of_skipped_tasks: attaches the mark {_u(n.args[0])}")
 
 
 def _check_renew_fail_marks():
